@@ -183,6 +183,28 @@ func runSignal(c sigCase) (what string, checks int) {
 		}
 		n.c <- shutdowns[c.Shut]
 		synctest.Wait()
+		// an impatient operator: more signals while the shutdown is under way (only the first one counts; a slow
+		// service is still given its time, the others are still shut down, the verdict is still the services')
+		slowAt := -1
+		for i, o := range c.Outcomes {
+			if o == oSlow {
+				slowAt = i
+			}
+		}
+		if slowAt >= 0 {
+			for _, sig := range []os.Signal{shutdowns[(c.Shut+1)%len(shutdowns)], syscall.SIGHUP, shutdowns[c.Shut]} {
+				select {
+				case n.c <- sig:
+				default:
+				}
+				synctest.Wait()
+			}
+			checks++
+			if returned {
+				fail("Handle returned %d on a further signal while service %d was still shutting down (outcomes %v)", status, slowAt, names(c.Outcomes))
+				return
+			}
+		}
 		// blocked services wait for the (virtual) shutdown timeout
 		time.Sleep(time.Minute)
 		synctest.Wait()
